@@ -41,7 +41,7 @@ func (e *env) materialise(ns []*Node, path string, all *[]*matList) *matList {
 			ml.slice = append(ml.slice, godi.NewModule(n.Name, child.slice...))
 		case "anon":
 			child := e.materialise(n.Kids, path+"/group", all)
-			g := &anonGroup{kids: child.slice}
+			g := &anonGroup{kids: child.slice, wrap: n.Wrap}
 			ml.slice = append(ml.slice, g.apply)
 		}
 	}
